@@ -282,7 +282,8 @@ class CFG:
             body_out = self._block(st.body, [(t, 'true')])
             self._loop_stack.pop()
             for n, lab in body_out:
-                self._edge(n, t, 'back')
+                # a branch edge that is also the back edge keeps its branch label
+                self._edge(n, t, lab if lab in ('true', 'false') else 'back')
             const_true = isinstance(st.test, ast.Constant) and bool(st.test.value)
             out = [] if const_true else (self._block(st.orelse, [(t, 'false')]) if st.orelse
                                          else [(t, 'false')])
@@ -298,7 +299,8 @@ class CFG:
             body_out = self._block(st.body, [(t, 'true')])
             self._loop_stack.pop()
             for n, lab in body_out:
-                self._edge(n, t, 'back')
+                # a branch edge that is also the back edge keeps its branch label
+                self._edge(n, t, lab if lab in ('true', 'false') else 'back')
             out = self._block(st.orelse, [(t, 'false')]) if st.orelse else [(t, 'false')]
             return out + breaks
         if isinstance(st, ast.Try):
@@ -429,45 +431,125 @@ class CFG:
                 dq.append(s)
         return seen
 
+    def bool_flags(self):
+        """locals used as boolean flags: every definition is the constant True or False"""
+        if getattr(self, '_flags', None) is None:
+            defs = {}
+            bad = set(getattr(self.unit, 'all_params', None) or self.unit.params)
+            for n in self.unit.own_nodes():
+                if isinstance(n, ast.Assign) and len(n.targets) == 1 and isinstance(n.targets[0], ast.Name) \
+                        and isinstance(n.value, ast.Constant) and isinstance(n.value.value, bool):
+                    defs.setdefault(n.targets[0].id, []).append(n.value.value)
+                elif isinstance(n, ast.Name) and isinstance(n.ctx, (ast.Store, ast.Del)):
+                    pass
+            stores = {}
+            for n in self.unit.own_nodes():
+                if isinstance(n, ast.Name) and isinstance(n.ctx, (ast.Store, ast.Del)):
+                    stores[n.id] = stores.get(n.id, 0) + 1
+                elif isinstance(n, (ast.Global, ast.Nonlocal)):
+                    bad.update(n.names)
+            captured = set()
+            for n in ast.walk(self.unit.node):
+                if n is not self.unit.node and isinstance(n, (ast.FunctionDef, ast.AsyncFunctionDef, ast.Lambda)):
+                    for x in ast.walk(n):
+                        if isinstance(x, ast.Name):
+                            captured.add(x.id)
+            self._flags = {k for k, v in defs.items() if stores.get(k) == len(v) and k not in bad and k not in captured}
+        return self._flags
+
+    def _flag_step(self, n, lab, st):
+        """state after leaving node n on edge lab, or None when the edge is infeasible for the
+        known flag values (st: frozenset of (flag, value))"""
+        flags = self.bool_flags()
+        if not flags:
+            return st
+        a = n.ast
+        if n.kind == 'stmt' and isinstance(a, ast.Assign) and len(a.targets) == 1 and isinstance(a.targets[0], ast.Name) \
+                and a.targets[0].id in flags and lab != 'exc':
+            nm = a.targets[0].id
+            return frozenset([x for x in st if x[0] != nm] + [(nm, a.value.value)])
+        if n.kind == 'test' and lab in ('true', 'false'):
+            t = a
+            neg = False
+            while isinstance(t, ast.UnaryOp) and isinstance(t.op, ast.Not):
+                t, neg = t.operand, not neg
+            if isinstance(t, ast.Name) and t.id in flags:
+                known = dict(st).get(t.id)
+                if known is not None:
+                    val = (not known) if neg else known
+                    if (lab == 'true') != val:
+                        return None
+                else:
+                    val = (lab == 'true')
+                    return frozenset(list(st) + [(t.id, (not val) if neg else val)])
+        return st
+
+    def flag_state_in(self, node):
+        """values of the boolean flags known on *every* path reaching the entry of node"""
+        if getattr(self, '_flag_in', None) is None:
+            flags = self.bool_flags()
+            IN = {n: None for n in self.nodes}       # None = not reached yet (top)
+            IN[self.entry] = frozenset()
+            work = deque([self.entry])
+            while work:
+                n = work.popleft()
+                for s, lab in n.succ:
+                    st = self._flag_step(n, lab, IN[n]) if flags else frozenset()
+                    if st is None:
+                        continue
+                    new = st if IN[s] is None else (IN[s] & st)
+                    if new != IN[s]:
+                        IN[s] = new
+                        work.append(s)
+            self._flag_in = IN
+        v = self._flag_in.get(node)
+        return v if v is not None else frozenset()
+
     def find_path(self, start, targets, avoid=(), labels=None, start_labels=None):
         """a witness path (list of (node, label-taken-to-reach-it)) from start
-        to any node in targets avoiding ``avoid``; None if none"""
+        to any node in targets avoiding ``avoid``; None if none.  Paths that
+        contradict the value of a boolean flag local set earlier on the same
+        path are not considered."""
         targets = set(targets)
         avoid = set(avoid)
         prev = {}
         dq = deque()
+        st0 = self.flag_state_in(start)
         for s, lab in start.succ:
             if start_labels is not None and not start_labels(lab):
                 continue
             if labels is not None and not labels(lab):
                 continue
-            if s in avoid or s in prev:
+            st = self._flag_step(start, lab, st0)
+            if st is None or s in avoid or (s, st) in prev:
                 continue
-            prev[s] = (start, lab)
-            dq.append(s)
+            prev[(s, st)] = ((start, None), lab)
+            dq.append((s, st))
         hit = None
         while dq:
-            n = dq.popleft()
+            key = dq.popleft()
+            n, st = key
             if n in targets:
-                hit = n
+                hit = key
                 break
             for s, lab in n.succ:
                 if labels is not None and not labels(lab):
                     continue
-                if s in avoid or s in prev:
+                st2 = self._flag_step(n, lab, st)
+                if st2 is None or s in avoid or (s, st2) in prev:
                     continue
-                prev[s] = (n, lab)
-                dq.append(s)
+                prev[(s, st2)] = (key, lab)
+                dq.append((s, st2))
         if hit is None:
             return None
         path = []
-        n = hit
-        while n is not start or not path:
-            p, lab = prev[n]
-            path.append((n, lab))
-            n = p
-            if n is start:
+        key = hit
+        while True:
+            pk, lab = prev[key]
+            path.append((key[0], lab))
+            if pk[1] is None and pk[0] is start:
                 break
+            key = pk
         path.append((start, 'start'))
         path.reverse()
         return path
@@ -654,15 +736,32 @@ class CFG:
         self._rd = (IN, OUT)
         return self._rd
 
-    def reaching_defs(self, node, name):
+    def reaching_defs(self, node, name, split=True):
         """definitions of ``name`` reaching the *entry* of node: list of
-        (defnode, value) with value an ast.expr or marker tuple"""
+        (defnode, value) with value an ast.expr or marker tuple.  A value that is a
+        conditional expression stands for its alternatives (one entry per leaf) unless
+        split is False."""
         IN, _ = self.reaching()
-        return [un_key(k) for k in IN[node].get(name, ())]
+        out = [un_key(k) for k in IN[node].get(name, ())]
+        if split:
+            res = []
+            for dn, v in out:
+                if isinstance(v, ast.IfExp):
+                    res.extend((dn, leaf) for leaf in _leaves(v))
+                else:
+                    res.append((dn, v))
+            return res
+        return out
 
     def reaching_out(self, node, name):
         _, OUT = self.reaching()
         return [un_key(k) for k in OUT[node].get(name, ())]
+
+
+def _leaves(e):
+    if isinstance(e, ast.IfExp):
+        return _leaves(e.body) + _leaves(e.orelse)
+    return [e]
 
 
 _KEYED = {}
